@@ -367,4 +367,66 @@ theorem pow_zero_bits_modulus_one :
       (paramsNew [1]).modNegInv = [0] := by
   decide +kernel
 
+/-! ## coverage round — the crate-internal functions the correspondence run reaches through
+     `crypto_bigint::verif_hooks` (`c09.hook.*`): `compute_powers`, `multi_exponentiate_montgomery_form_internal`
+     on caller-provided tables, the boxed table, one pass of `impl_longa_monty_lincomb!` (the existing
+     `longa_window_exact` is about exactly the `(u, hi_carry)` the hook returns; `boxed_pow_bounded_exp_exact`
+     about the boxed `pow_montgomery_form`). -/
+
+/-- `compute_powers(x, m, one, k)` (`c09.hook.compute_powers`): for every limb count, 16 entries, entry `j` the
+    canonical Montgomery form of `X^j`. -/
+theorem compute_powers_exact (ms one x : List Nat) (k X : Nat)
+    (hm : ModOK ms k) (hone : Rep ms one 1) (hx : Rep ms x X) :
+    (computePowers x ms one k).length = 16 ∧
+    ∀ j, j < 16 → Rep ms ((computePowers x ms one k).getD j []) (X ^ j) :=
+  ⟨(computePowers_spec hm hx hone).len, (computePowers_spec hm hx hone).rep⟩
+
+/-- `multi_exponentiate_montgomery_form_internal` (`c09.hook.multi_internal`) on CALLER-PROVIDED tables: whenever
+    every table holds the canonical forms of the powers of its base (`TermOK`), for every number of terms and every
+    `exponent_bits > 0` the result is the canonical form of `Π Xᵢ ^ (eᵢ mod 2^bits)` and retrieves to `multiSpec`. -/
+theorem multi_exp_internal_exact (ms one : List Nat) (k bits : Nat) (hb : 0 < bits)
+    (pes : List (List (List Nat) × List Nat)) (XEs : List (Nat × Nat))
+    (hm : ModOK ms k) (hone : Rep ms one 1) (h : List.Forall₂ (TermOK ms) pes XEs) :
+    Rep ms (multiExpInternal pes bits ms one k) (prodPow (fun e => e % 2 ^ bits) XEs) ∧
+    val (retrieveMont (multiExpInternal pes bits ms one k) ms k) = multiSpec (val ms) bits XEs := by
+  have r := multiExpInternal_spec hm hone bits hb h
+  exact ⟨r, by rw [(r.retrieve hm).1, prodPow_mod]⟩
+
+/-- the table of the boxed ladder: 16 entries, entry `j` congruent to the Montgomery form of `X^j` and almost
+    reduced (`< 2m`) — what makes two final subtractions enough. -/
+theorem boxed_compute_powers_almost_reduced (ms one x : List Nat) (k X : Nat)
+    (hm : ModOK ms k) (hone : Rep ms one 1) (hx : Rep ms x X) :
+    (bComputePowers x ms one k).length = 16 ∧
+    ∀ j, j < 16 → Cong ms ((bComputePowers x ms one k).getD j []) (X ^ j) ∧
+      val ((bComputePowers x ms one k).getD j []) / val ms ≤ 1 :=
+  ⟨(bComputePowers_spec hm hx hone).len, (bComputePowers_spec hm hx hone).rep⟩
+
+/-- one pass of `impl_longa_monty_lincomb!` (`c09.hook.longa` / `c09.hook.blonga` return exactly this pair): the
+    accumulator is well-formed and `B^n·(u + hi_carry·B^n) = Σ aᵢ·bᵢ + Q·m` for a `Q < B^n` — the interleaved
+    reduction adds the multiple of `m` that clears the low `n` limbs, nothing is lost in `hi` / `hi_carry`.
+    (`Q` is unique, `m` being odd: `Q = (Σ aᵢ·bᵢ)·(−m⁻¹) mod B^n`, the value the driver prints as L0.) -/
+theorem longa_window_quotient (ms : List Nat) (k : Nat) (terms : List (List Nat × List Nat))
+    (hm : ModOK ms k) (hT : TermsOK ms.length (val ms) terms) (hcap : terms.length * val ms ≤ B ^ ms.length) :
+    WF (longa terms ms k).1 ∧ (longa terms ms k).1.length = ms.length ∧
+    ∃ Q, Q < B ^ ms.length ∧
+      B ^ ms.length * (val (longa terms ms k).1 + B ^ ms.length * (longa terms ms k).2) = valDot terms + Q * val ms :=
+  outerLoop_spec hm hT hcap ms.length 0 (uzero ms.length, 0) (by omega)
+    (uzero_WF _) (by simp [uzero]) ⟨0, by simp, by simp [lowDot_zero, val_uzero]⟩
+
+/-- non-vacuity of `TermOK` / `TermsOK`: 2 limbs, m = 2^64 + 1 (k = 2^64 − 1, R mod m = 1): the table of the base 3
+    built by `compute_powers` is a `TermOK` table, and two reduced pairs are `TermsOK` within the cap. -/
+example : ∃ ms one x e k X, ModOK ms k ∧ Pow.Rep ms one 1 ∧ TermOK ms (computePowers x ms one k, e) (X, val e) ∧
+    TermsOK ms.length (val ms) [(x, x), (one, x)] ∧ 2 * val ms ≤ B ^ ms.length :=
+  have hm : ModOK [1, 1] WMAX := ⟨WF_of_all _ (by decide), by decide, by decide⟩
+  have hone : Pow.Rep [1, 1] [1, 0] 1 := ⟨WF_of_all _ (by decide), rfl, by decide⟩
+  have hx : Pow.Rep [1, 1] [3, 0] 3 := ⟨WF_of_all _ (by decide), rfl, by decide⟩
+  ⟨[1, 1], [1, 0], [3, 0], [5], WMAX, 3, hm, hone,
+    ⟨computePowers_spec hm hx hone, WF_of_all _ (by decide), rfl⟩,
+    by
+      intro t ht
+      simp only [List.mem_cons, List.mem_nil_iff, or_false] at ht
+      rcases ht with rfl | rfl <;>
+        exact ⟨WF_of_all _ (by decide), WF_of_all _ (by decide), rfl, rfl, by decide, by decide⟩,
+    by decide⟩
+
 end CB.P09
